@@ -94,4 +94,42 @@ def mirrorModel (L : Int) (m : MModel) : MModel := { forward := !m.forward, exon
 def mirrorCluster (L : Int) (c : Cluster) : Cluster :=
   { forward := !c.forward, three := mirrorP L c.three, reads := mirrorL L c.reads }
 
+/-! ### which reads enter the clusters (the first loop of `construct_monoexon_novel`)
+
+A tailed unspliced read is `(id, exon, external polyA position, external polyT position)`, −1 = no such tail.
+  * `strandVote` — the code after the follow-up of 7594462: a read with a polyA tail AND a polyT head has no strand
+    (`get_assignment_strand` reports '.'), it supports neither a '+' nor a '−' model;
+  * `strandVotesShared` — 7594462 and before: such a read is put into a polyA cluster AND a polyT cluster; since 7594462
+    the two clusters (equal support) do not compete, so two models are built from the same reads and every such read is
+    assigned to two models (`__ambiguous`, counted for neither).
+`is_internal_monoexonic_read` (terminal exons of the intron graph) is not modelled: empty intron graph. -/
+
+structure MRead where
+  id : Nat
+  iv : Iv
+  polyA : Int
+  polyT : Int
+  deriving DecidableEq, Repr
+
+/-- the strand a read gives evidence for: `some true` = '+', `some false` = '−', `none` = no strand -/
+def strandVote (r : MRead) : Option Bool :=
+  if r.polyA ≠ -1 ∧ r.polyT = -1 then some true
+  else if r.polyT ≠ -1 ∧ r.polyA = -1 then some false
+  else none
+
+def strandVotesShared (r : MRead) : List Bool :=
+  (if r.polyA ≠ -1 then [true] else []) ++ (if r.polyT ≠ -1 then [false] else [])
+
+/-- the reads of the polyA (`fw = true`) / polyT clusters, in read order -/
+def votersOf (fw : Bool) (rs : List MRead) : List MRead := rs.filter (fun r => strandVote r == some fw)
+def votersOfShared (fw : Bool) (rs : List MRead) : List MRead := rs.filter (fun r => (strandVotesShared r).contains fw)
+
+/-- the cluster of the reads voting for `fw` whose tail position is `three` (one cluster per tail position: apa_delta = 0) -/
+def clusterAt (fw : Bool) (three : Int) (voters : List MRead) : Cluster :=
+  { forward := fw, three := three,
+    reads := (voters.filter (fun r => (if fw then r.polyA else r.polyT) == three)).map (·.iv) }
+
+def mirrorMRead (L : Int) (r : MRead) : MRead :=
+  { id := r.id, iv := mirrorIv L r.iv, polyA := mirrorPos L r.polyT, polyT := mirrorPos L r.polyA }
+
 end IsoVerif.Model.C11
